@@ -4,7 +4,7 @@ import itertools
 import torch
 from hypothesis import strategies as st
 
-from pbt.harness import Sub, Violation, SutRaised, require, sut
+from pbt.harness import Sub, Violation, SutRaised, require, sut, deep_equal
 from pbt import gen
 
 from tangermeme.variant_effect import substitution_effect, deletion_effect, insertion_effect
@@ -142,6 +142,8 @@ def variant_case(case, ctx):
     else:
         yb, ya = sut(fn, None, X, V, args=args, func=_echo, **kw)
         require(torch.equal(X, Xc) and torch.equal(V, Vc), kind + "-input-modified", "")
+        yb2, ya2 = sut(fn, None, X, V, args=args, func=_echo, **kw)
+        require(torch.equal(yb["X"], yb2["X"]) and torch.equal(ya["X"], ya2["X"]), kind + "-second-call-differs", "two identical calls edited the sequences differently")
         for tag, y, want in (("before", yb, before), ("after", ya, after)):
             T = y["X"]
             require(T.dim() == 3 and T.shape[0] == B and T.shape[1] == A and T.shape[2] == len(want[0]), kind + "-" + tag + "-shape",
